@@ -66,6 +66,7 @@ fn new_tr<'a>(idx: &'a Index, reg: &'a Registry, cur: &'a FnEntry) -> Tr<'a> {
         ptr_alias: HashMap::new(),
         pattern_generics: Vec::new(),
         type_subst: HashMap::new(),
+        mut_self: false,
     }
 }
 
@@ -239,8 +240,11 @@ fn translate_fn(idx: &Index, reg: &Registry, t: &Target, texts: &BTreeMap<String
     let mut params: Vec<(String, Ty)> = Vec::new();
     for inp in &f.sig.inputs {
         match inp {
-            syn::FnArg::Receiver(_) => {
+            syn::FnArg::Receiver(r) => {
                 let st = f.self_ty.clone().ok_or("receiver outside an impl")?;
+                if r.reference.is_some() && r.mutability.is_some() {
+                    tr.mut_self = true;
+                }
                 params.push(("self".into(), Ty::Adt(st)));
             }
             syn::FnArg::Typed(pt) => {
@@ -271,7 +275,10 @@ fn translate_fn(idx: &Index, reg: &Registry, t: &Target, texts: &BTreeMap<String
         syn::ReturnType::Default => Ty::Unit,
         syn::ReturnType::Type(_, t) => tr.conv_ty(t),
     };
-    tr.ret_ty = ret.clone();
+    // a `&mut self` method hands the updated receiver back next to its result
+    let user_ret = ret.clone();
+    let ret = if tr.mut_self { Ty::Tuple(vec![ret, Ty::Adt(f.self_ty.clone().unwrap_or_default())]) } else { ret };
+    tr.ret_ty = user_ret.clone();
     tr.lean_name = t.lean_name.clone();
     // witness-arm target: only the selected arm of `match HasTypeWitness::WITNESS { … }`
     let arm_block: Option<Block> = match &t.arm {
@@ -299,7 +306,12 @@ fn translate_fn(idx: &Index, reg: &Registry, t: &Target, texts: &BTreeMap<String
         Some(b) => &b.stmts,
         None => &f.block.stmts,
     };
-    let (body, _ty, _div) = tr.block_lines(stmts, &[], true, Some(&ret))?;
+    let (body, _ty, _div) = if tr.mut_self {
+        let outs = vec!["self".to_string()];
+        tr.block_lines(stmts, &outs, true, Some(&user_ret))?
+    } else {
+        tr.block_lines(stmts, &[], true, Some(&ret))?
+    };
 
     let mut sig = String::new();
     for g in &tr.generics {
